@@ -219,3 +219,75 @@ def graph_problems(a, b, result):
         if len(kinds) > 1:
             bad.append(("combined precondition", "part files feeding parts-merged.json disagree on tolerance / em height (write_combined_part_files asserts they agree)", sorted(map(str, kinds))))
     return bad
+
+
+# ---- the CLI's own bitmap step: bitmap_resolution is the pixel HEIGHT of what it renders
+
+
+def gen_cli_bitmaps(rng, i=None):
+    i = rng.randrange(4) if i is None else i
+    return {
+        "fmt": ["sbix", "cbdt", "sbix", "cbdt"][i % 4],
+        "viewbox": [(0, 0, 150, 100), (0, 0, 100, 100), (0, 0, 60, 120), (0, 0, 180, 100)][i % 4],
+        "res": rng.choice([64, 96, 72]) if i % 4 != 3 else 64,
+        "by_flag": i % 2 == 0,
+    }
+
+
+def run_cli_bitmaps(fmt, viewbox, res, by_flag):
+    import io
+
+    from fontTools import ttLib
+    from PIL import Image
+
+    repo_src = next((p for p in sys.path if p.endswith("/src") and os.path.isdir(os.path.join(p, "nanoemoji"))), "/repo/src")
+    with tempfile.TemporaryDirectory(prefix="verif_cli_") as d:
+        x, y, w, h = viewbox
+        svg = f'<svg xmlns="http://www.w3.org/2000/svg" viewBox="{x} {y} {w} {h}"><rect x="{x + w * 0.1}" y="{y + h * 0.1}" width="{w * 0.8}" height="{h * 0.8}" fill="#C02040"/></svg>'
+        open(os.path.join(d, "emoji_u1f600.svg"), "w").write(svg)
+        cmd = [sys.executable, "-m", "nanoemoji.nanoemoji", "--color_format", fmt, "--build_dir", os.path.join(d, "build")]
+        if by_flag:
+            cmd += ["--bitmap_resolution", str(res), "emoji_u1f600.svg"]
+        else:
+            open(os.path.join(d, "c.toml"), "w").write(f'bitmap_resolution = {res}\ncolor_format = "{fmt}"\n[axis.wght]\nname = "Weight"\ndefault = 400\n[master.regular]\nstyle_name = "Regular"\nsrcs = ["emoji_u1f600.svg"]\n[master.regular.position]\nwght = 400\n')
+            cmd += ["c.toml"]
+        env = dict(os.environ, PYTHONPATH=repo_src, PATH="/venv/bin:" + os.environ.get("PATH", ""))
+        r = subprocess.run(cmd, cwd=d, env=env, capture_output=True, text=True, timeout=600)
+        out = {"exit": r.returncode, "stderr": (r.stdout + r.stderr)[-800:], "png_sizes": [], "ppems": []}
+        fonts = [f for f in os.listdir(os.path.join(d, "build")) if f.endswith(".ttf")] if os.path.isdir(os.path.join(d, "build")) else []
+        if r.returncode == 0 and fonts:
+            font = ttLib.TTFont(os.path.join(d, "build", fonts[0]))
+            out["upem"] = font["head"].unitsPerEm
+            out["em"] = font["hhea"].ascent - font["hhea"].descent
+            if "sbix" in font:
+                for ppem, strike in font["sbix"].strikes.items():
+                    out["ppems"].append(ppem)
+                    for g in strike.glyphs.values():
+                        if g.imageData:
+                            out["png_sizes"].append(Image.open(io.BytesIO(g.imageData)).size)
+            if "CBDT" in font:
+                for st, data in zip(font["CBLC"].strikes, font["CBDT"].strikeData):
+                    out["ppems"].append(st.bitmapSizeTable.ppemY)
+                    for bm in data.values():
+                        out["png_sizes"].append(Image.open(io.BytesIO(bm.imageData)).size)
+        return out
+
+
+def cli_bitmap_problems(fmt, viewbox, res, by_flag, result):
+    if result["exit"] != 0:
+        # a bitmap too wide for CBDT's 8-bit metrics is rejected (C14 allows that)
+        if fmt == "cbdt" and "too big for CBDT" in result["stderr"]:
+            return []
+        return [("CLI failed", result["stderr"][-300:])]
+    bad = []
+    if not result["png_sizes"]:
+        bad.append("no bitmaps in the font")
+    for w, h in result["png_sizes"]:
+        if h != res:
+            bad.append(("bitmap height is not bitmap_resolution", (w, h), res))
+        if abs(w - res * viewbox[2] / viewbox[3]) > 1:
+            bad.append(("bitmap width does not follow the viewBox aspect", (w, h)))
+    want = round(result["upem"] * res / result["em"])
+    if any(p != want for p in result["ppems"]):
+        bad.append(("strike ppem", result["ppems"], want))
+    return bad
